@@ -117,6 +117,15 @@ func buildNative(tag string, race bool) (string, error) {
 	if err != nil {
 		return "", fmt.Errorf("HARNESS-INCOMPATIBLE: native harness build failed: %v\n%s", err, out)
 	}
+	// the command-line tool itself, for harnesses that run it (C18)
+	cli := filepath.Join(workDir, "bcl_"+tag)
+	cmd = exec.Command("go", "build", "-o", cli, "./cmd/bcl")
+	cmd.Dir = repoDir
+	cmd.Env = goEnv()
+	if out, err := cmd.CombinedOutput(); err != nil {
+		return "", fmt.Errorf("HARNESS-INCOMPATIBLE: building cmd/bcl failed: %v\n%s", err, out)
+	}
+	os.Setenv("VERIF_BCL_BIN", cli)
 	return bin, nil
 }
 
@@ -131,6 +140,7 @@ type nativeProc struct {
 
 func (n *nativeProc) start() error {
 	n.cmd = exec.Command(n.bin)
+	n.cmd.Env = os.Environ()
 	n.stderr = &bytes.Buffer{}
 	n.cmd.Stderr = n.stderr
 	stdin, err := n.cmd.StdinPipe()
